@@ -258,6 +258,12 @@ def main(chk):
                 jobs.append({"id": "exh-%d-%d" % (ti, lo), "kind": "exhaustive", "tree": "fixed", "triple": ti,
                              "atoms": TRIPLES[ti], "n_conn": n_conn, "lo": lo, "hi": lo + chunk,
                              "styles": ["(", "{"] if (ti == 0 or not quick) else ["("], "seed": 0})
+        if not quick and ti in (0, 2):
+            # every formula with up to FOUR connectives for two triples (85263 formulas each)
+            total4 = len(formulas_upto(4))
+            for lo in range(0, total4, 1500):
+                jobs.append({"id": "exh4-%d-%d" % (ti, lo), "kind": "exhaustive", "tree": "fixed", "triple": ti, "atoms": TRIPLES[ti], "n_conn": 4,
+                             "lo": lo, "hi": lo + 1500, "styles": ["("], "seed": 0})
         for k in range(8 if quick else 16):
             jobs.append({"id": "rnd-%d-%d" % (ti, k), "kind": "random", "tree": "fixed" if k % 2 == 0 else "random",
                          "triple": ti, "atoms": TRIPLES[ti], "n": 40 if quick else 150,
@@ -272,5 +278,6 @@ def main(chk):
                      "columns a zip member has too (a column the entry lacks makes every condition on it false, negated or not)",
                      "an atom's own result is taken from fselect itself, so a defect in a comparison (C02) cannot raise a C03 alarm"],
         require={"formula_shapes": 12},
-        exhaustive={"formulas_upto_connectives": n_conn, "formulas": total, "atom_triples": [TRIPLES[i] for i in triples]},
+        exhaustive={"formulas_upto_connectives": n_conn, "formulas": total, "atom_triples": [TRIPLES[i] for i in triples],
+                    "four_connectives": None if quick else {"formulas": len(formulas_upto(4)), "atom_triples": [TRIPLES[0], TRIPLES[2]]}},
     )
